@@ -7,7 +7,7 @@ import numpy as np
 
 from .core import Prop, close, dec_list, enc, enc_list, exc_class
 
-CONTAINERS = ["np_float", "np_int", "list", "tuple_rows", "polars_float", "polars_int"]
+CONTAINERS = ["np_float", "np_int", "list", "tuple_rows", "polars_float", "polars_int", "polars_uint", "np_uint"]
 
 
 def build_X(container, rows):
@@ -21,7 +21,11 @@ def build_X(container, rows):
         return [list(r) for r in rows]
     if container == "tuple_rows":
         return [list(r) for r in rows]  # rows must be mutable copies for safe_assign_column; list of lists again
+    if container == "np_uint":
+        return np.array(rows, dtype=np.uint16)
     cols = list(zip(*rows))
+    if container == "polars_uint":
+        return pl.DataFrame({f"c{i}": pl.Series([int(v) for v in c], dtype=[pl.UInt8, pl.UInt32][i % 2]) for i, c in enumerate(cols)})
     if container == "polars_float":
         return pl.DataFrame({f"c{i}": [float(v) for v in c] for i, c in enumerate(cols)})
     return pl.DataFrame({f"c{i}": pl.Series([int(v) for v in c], dtype=pl.Int64) for i, c in enumerate(cols)})
@@ -77,8 +81,21 @@ class C16(Prop):
             grid = [rng.choice([rng.randint(-4, 8), rng.randint(-8, 16) / 2, rng.randint(-16, 32) / 4]) for _ in range(ng)]
             w = None if rng.random() < 0.4 else [rng.choice([1, 2, 3, 0.5, 0.25]) for _ in range(n)]
             nmax = rng.choice([None, n, n + 3, max(1, n - 1), max(1, n // 2), 1000])
-            yield {"stream": "pd", "container": rng.choice(CONTAINERS), "rows": rows, "j": j, "k": kk, "grid": grid,
-                   "grid_container": rng.choice(["list", "np", "polars"]), "w": w, "n_max": nmax, "seed": rng.choice([0, 0, 1, rng.randint(0, 10**6)]),
+            seed = rng.choice([0, 0, 1, rng.randint(0, 10**6)])
+            if w is not None and n >= 3 and rng.random() < 0.35:
+                # exact zeros among the weights (frequency weights, masks); the subsample is still drawn from all rows
+                for i in rng.sample(range(n), rng.randint(1, n - 2)):
+                    w[i] = 0
+                if nmax is not None and nmax < n:
+                    sub = [int(i) for i in np.random.default_rng(seed).choice(n, size=nmax, replace=False)]
+                    if sum(w[i] for i in sub) == 0:
+                        w[sub[0]] = 1
+            container = rng.choice(CONTAINERS)
+            if container in ("polars_uint", "np_uint"):
+                rows = [[abs(v) for v in r] for r in rows]
+                grid = [abs(g) for g in grid]  # a feature grid consists of values the column can take
+            yield {"stream": "pd", "container": container, "rows": rows, "j": j, "k": kk, "grid": grid,
+                   "grid_container": rng.choice(["list", "np", "polars"]), "w": w, "n_max": nmax, "seed": seed,
                    "a": rng.randint(-2, 3), "b": rng.randint(-2, 2), "c": rng.randint(-1, 3)}
 
     def subsample(self, case):
